@@ -33,6 +33,7 @@ func init() {
 			c.run("C05-R12", "GUARDED-BY: the drag buffers shared between the input pump and its delayed workers are only touched under their mutex", guardedBy)
 			c.run("C05-R13", "GUARD-DOM: a drag detector answers with files only when its scan reached the end of the input", dragWholeInput)
 			c.run("C05-S2", "shared with C19-R1: header detection and the five-CAN cancel marker", c19R1)
+			c.run("C05-S4", "shared with C19-R2/R3: a zmodem session that ends — also one that fails before the helper exists — always arms its cleanup; until the cleanup runs the filter swallows all input and output", func(c *Ctx) { c19R2(c); c19R3(c) })
 			c.run("C05-S1", "shared with C06-R3: the words that mark a finished transfer in scroll-back are the words the servers print (a replayed, finished handshake stays plain output)", c06R3)
 		})
 }
